@@ -77,10 +77,24 @@ let check_names acc =
      | None -> if t >= 0 && t <= 5 then fail acc ~kind:"spec_violation" ~what:"[C15] a defined algorithm has no name" (JO [ "enum", JI t ]))
   done
 
+external c_codec_mt_stress : int -> int -> int -> int = "vp_codec_mt_stress"
+
+(* round trip from several threads at once: each thread compresses and decompresses its own buffers *)
+let check_threads acc ~tier =
+  for alg = 1 to 5 do
+    let case = lazy (JO [ "algorithm", JI alg; "threads", JI 8; "rounds_per_thread", JI (if tier = "thorough" then 400 else 60) ]) in
+    record acc ~key:(Printf.sprintf "mt%d" alg) ~nontrivial:true ~klass:"concurrent_round_trip" case;
+    (match in_child (fun () -> string_of_int (c_codec_mt_stress alg 8 (if tier = "thorough" then 400 else 60))) with
+     | Exited (_, "0") -> ()
+     | Exited (_, s) -> fail acc ~kind:"spec_violation" ~what:("[C15,C14] compress/decompress round trip fails when several threads use the library at once (" ^ s ^ " failures)") (Lazy.force case)
+     | Signaled (sg, _) -> fail acc ~kind:"spec_violation" ~what:(Printf.sprintf "[C15,C14] the process stopped (signal %d) while several threads compressed and decompressed their own buffers" sg) (Lazy.force case))
+  done
+
 let run ~tier ~seed ~only acc =
   let idx = ref 0 in
   let want () = cur_index := !idx; (match only with None -> true | Some i -> i = !idx) in
   if want () then check_names acc; incr idx;
+  if want () then check_threads acc ~tier; incr idx;
   let st0 = case_rng ~seed ~engine ~index:0 in
   (* every small length x contents x algorithm, default level; levels sampled *)
   for n = 0 to 64 do
